@@ -59,6 +59,10 @@ func c18Prefixes(kind string) []c18Pfx {
 		return []c18Pfx{{"2001:db8:1::5", 64, true, true, 10 * time.Second, 5 * time.Second}}
 	case "p148":
 		return []c18Pfx{{"2001:db8:1::", 48, true, true, 10 * time.Second, 5 * time.Second}}
+	case "badlen+p2":
+		// A prefix option whose length byte is 200 on the wire (package ndp parses it:
+		// the address comes out invalid), followed by a well-formed one.
+		return []c18Pfx{{"2001:db8:7::", 200, true, true, 10 * time.Second, 5 * time.Second}, p2}
 	}
 	return nil
 }
@@ -72,12 +76,38 @@ func (m c18Msg) in() inMsg {
 		if m.Unknown {
 			ra.Options = append(ra.Options, &ndp.RawOption{Type: 200, Length: 1, Value: []byte{1, 2, 3, 4, 5, 6}})
 		}
-		for _, p := range c18Prefixes(m.Prefixes) {
-			ra.Options = append(ra.Options, &ndp.PrefixInformation{PrefixLength: uint8(p.bits), OnLink: p.onlink, AutonomousAddressConfiguration: p.auto,
+		patch := -1
+		for i, p := range c18Prefixes(m.Prefixes) {
+			bits := p.bits
+			if bits > 128 {
+				bits, patch = 64, i
+			}
+			ra.Options = append(ra.Options, &ndp.PrefixInformation{PrefixLength: uint8(bits), OnLink: p.onlink, AutonomousAddressConfiguration: p.auto,
 				ValidLifetime: p.valid, PreferredLifetime: p.pref, Prefix: netip.MustParseAddr(p.addr)})
 		}
 		ra.Options = append(ra.Options, ndp.NewMTU(1500))
 		msg = ra
+		if patch >= 0 {
+			// Only the wire can carry an out-of-range length: marshal, patch the byte, parse.
+			b, err := ndp.MarshalMessage(ra)
+			if err != nil {
+				panic(err)
+			}
+			off := 4 + 12 // ICMPv6 header + RA fields
+			if m.Unknown {
+				off += 8
+			}
+			off += 32*patch + 2 // option type, option length, then the prefix length
+			if b[off-2] != 3 || b[off] != 64 {
+				panic(fmt.Sprintf("verif: prefix option not where expected: % x", b))
+			}
+			b[off] = byte(c18Prefixes(m.Prefixes)[patch].bits)
+			pm, err := ndp.ParseMessage(b)
+			if err != nil {
+				panic(fmt.Sprintf("verif: ndp no longer parses a prefix length of 200: %v", err))
+			}
+			msg = pm
+		}
 	case "RS":
 		msg = &ndp.RouterSolicitation{}
 	case "NS":
@@ -130,6 +160,9 @@ func (md c18Model) apply(m c18Msg, at time.Time) {
 		md[monDefaultRoute][rk] = float64(at.Add(time.Duration(m.Life) * time.Second).Unix())
 	}
 	for _, p := range c18Prefixes(m.Prefixes) {
+		if p.bits > 128 {
+			continue // no CIDR form exists: how (and whether) it is labelled is not fixed; see c18Run
+		}
 		pk := "interface=eth0,prefix=" + netip.PrefixFrom(netip.MustParseAddr(p.addr), p.bits).String() + ",router=" + host
 		md[monPrefixAutonomous][pk] = b2f(p.auto)
 		md[monPrefixOnLink][pk] = b2f(p.onlink)
@@ -172,7 +205,13 @@ func c18Run(t *testing.T, c c18Case) (x *vsched.Exec, out [][2]string) {
 					model.apply(msg, at)
 					got := m.mem.Series()
 					for _, name := range c18Series {
-						g := got[name].Samples
+						g := map[string]float64{}
+						for k, v := range got[name].Samples {
+							// A prefix option without a CIDR form (length > 128) is a don't-care.
+							if !strings.Contains(k, "prefix=invalid") {
+								g[k] = v
+							}
+						}
 						w := model[name]
 						if len(g) == 0 && len(w) == 0 {
 							continue
@@ -221,7 +260,7 @@ func c18Run(t *testing.T, c c18Case) (x *vsched.Exec, out [][2]string) {
 func TestVerifC18(t *testing.T) {
 	r := ev.Begin("C18", "messages")
 	defer r.End(t)
-	r.Rule = "messages fed to the real Monitor.Run (real listener, memory metrics, virtual clock): (a) every single event = message shape (RA: M,O x lifetime {0,30s} x prefixes {none, P1, P1 infinite/zero, P1+P2, P1 with host bits, P1/48} x unknown option {no,yes}; RS; NS; NA) x sender {fe80::1%eth0, fe80::1, fe80::2%eth0, 2001:db8::1%eth0, ::%eth0} x gap {0, 1.5s}; (b) all sequences of length<=L over a 16-event sub-alphabet chosen so that labels collide (same sender with/without zone, same prefix with other lifetimes/flags, lifetime 0 after non-zero, the same RA again later, RS/NS from an RA's sender); oracle: the eight corerad_monitor_* series equal a map-based model after every message, Run never returns; non-trivial = every case; distinct = distinct sequence"
+	r.Rule = "messages fed to the real Monitor.Run (real listener, memory metrics, virtual clock): (a) every single event = message shape (RA: M,O x lifetime {0,30s} x prefixes {none, P1, P1 infinite/zero, P1+P2, P1 with host bits, P1/48, wire-patched length byte 200 followed by P2} x unknown option {no,yes}; RS; NS; NA) x sender {fe80::1%eth0, fe80::1, fe80::2%eth0, 2001:db8::1%eth0, ::%eth0} x gap {0, 1.5s}; (b) all sequences of length<=L over a 16-event sub-alphabet chosen so that labels collide (same sender with/without zone, same prefix with other lifetimes/flags, lifetime 0 after non-zero, the same RA again later, RS/NS from an RA's sender); oracle: the eight corerad_monitor_* series equal a map-based model after every message, Run never returns; non-trivial = every case; distinct = distinct sequence"
 	if r.Replay != nil {
 		var c c18Case
 		if err := json.Unmarshal(r.Replay, &c); err != nil {
@@ -264,7 +303,7 @@ func TestVerifC18(t *testing.T) {
 	var shapes []c18Msg
 	for _, fl := range []string{"", "M", "O", "MO"} {
 		for _, life := range []int{0, 30} {
-			for _, pf := range []string{"none", "p1", "p1inf", "p1p2", "p1host", "p148"} {
+			for _, pf := range []string{"none", "p1", "p1inf", "p1p2", "p1host", "p148", "badlen+p2"} {
 				for _, unk := range []bool{false, true} {
 					shapes = append(shapes, c18Msg{Type: "RA", Flags: fl, Life: life, Prefixes: pf, Unknown: unk})
 				}
